@@ -297,7 +297,7 @@ def run_fill_link(params, tier, acc):
         acc.sample(dict(kind="fill_link", buffer=buf))
 
 
-FATES = ["ok", "lost", "reply_lost", "dup", "slow"]
+FATES = ["ok", "lost", "reply_lost", "dup", "slow", "busy"]
 FATES2 = FATES + [("late", 700), ("late", 1300)]
 
 
